@@ -1,4 +1,5 @@
 import Femio.Model.FistrCnt
+import Femio.Model.FistrCntCanon
 import Femio.Lemmas.CntProps
 import Femio.Lemmas.FistrTextProps
 import Femio.Lemmas.CntFile
@@ -244,37 +245,8 @@ open Femio.Fistr.CntFile
 def decTable (k : Nat) (t : List (Row Sci)) : List (Row Dec) :=
   t.map fun r => (r.1, r.2.map (Option.map (Sci.toDec k)))
 
-/-- what the written data lines denote (exact decimal values) -/
-def decB (l : BLine Sci) : BLine Dec := ⟨l.id, l.first, l.last, l.val.toDec 5⟩
-def decD (l : DLine Sci) : DLine Dec := ⟨l.id, l.dof, l.val.toDec 6⟩
-def decS (r : Nat × Sci) : Nat × Dec := (r.1, r.2.toDec 12)
-
-/-- inputs `write_cnt` accepts, apart from the `cflux` / `pure_cflux` exclusion: the solution type is a `\w+` token,
-    the boundary / spring / cload tables are 3 wide, boundary and cload have at least one non-NaN entry
-    (`np.concatenate` of nothing raises otherwise) -/
-def WFCntBase (c : CntIn) : Prop :=
-  (c.solution ≠ [] ∧ ∀ ch ∈ c.solution, isWord ch = true) ∧
-  (∀ t, c.boundary = some t → (∀ r ∈ t, r.2.length = 3) ∧ boundaryRows t ≠ []) ∧
-  (∀ t, c.spring = some t → ∀ r ∈ t, r.2.length = 3) ∧
-  (∀ t, c.cload = some t → (∀ r ∈ t, r.2.length = 3) ∧ cloadRows t ≠ [])
-
-/-- well-formed input of the round trip: `WFCntBase` and not both `cflux` and `pure_cflux` (the reader reads every
-    `!CFLUX…` block into one table and cannot tell them apart, see `C03_cflux_both_merged`) -/
-def WFCnt (c : CntIn) : Prop := WFCntBase c ∧ (c.cflux = none ∨ c.pureCflux = none)
-
-instance (c : CntIn) : Decidable (WFCntBase c) := by unfold WFCntBase; infer_instance
-instance (c : CntIn) : Decidable (WFCnt c) := by unfold WFCnt; infer_instance
-
-/-- the exact reader output for the written file of `c`: a section that was not given, or whose table has no entry /
-    no row (written as a header followed by an empty line, which the blank filter removes), is absent -/
-def expectedCnt (c : CntIn) : CntRead where
-  solution := c.solution
-  boundary := c.boundary.map fun t => (boundaryRows t).map fun l => readBLine (decB l)
-  spring := c.spring.bind fun t => nonemptyOr ((springRows t).map fun l => readDLine (decD l))
-  cload := c.cload.map fun t => (cloadRows t).map fun l => readDLine (decD l)
-  fixtemp := c.fixtemp.bind fun t => nonemptyOr (t.map decS)
-  cflux := c.cflux.bind fun t => nonemptyOr (t.map decS)
-  pureCflux := c.pureCflux.bind fun t => nonemptyOr (t.map decS)
+/- `decB`, `decD`, `decS`, `WFCntBase`, `WFCnt` (decidable), `expectedCnt` are defined in `Model/FistrCntCanon.lean`
+   (core only: the driver evaluates them on every generated case). -/
 
 theorem readBLineG_written (o : Option (List (Row Sci))) :
     ∀ l ∈ optL o boundaryRows, readBLineG (decB l) = some (readBLine (decB l)) := by
